@@ -1,5 +1,6 @@
 """generators: datainfo trees, valid values, hostile candidates (standard library only, no frappy)"""
 import base64
+import json
 import math
 import sys
 
@@ -348,8 +349,32 @@ def mutate(di, v, rng, depth=0):
     return rng.choice(HOSTILE)
 
 
+PY_HOSTILE = [b'12.5', b' 7 ', b'1e3', b'nan', b'1_0', b'', b'abc', b'273.15\r\n', b'5', b'1', b'true', b'0']
+
+
+def _py_hostile_at(di, c, rng):
+    """replace one leaf position by raw bytes, e.g. the unparsed reply of a device (python side only)"""
+    t = di['type']
+    if t == 'array' and isinstance(c, list) and c:
+        i = rng.randrange(len(c))
+        return c[:i] + [_py_hostile_at(di['members'], c[i], rng)] + c[i + 1:]
+    if t == 'tuple' and isinstance(c, list) and len(c) == len(di['members']):
+        i = rng.randrange(len(c))
+        return c[:i] + [_py_hostile_at(di['members'][i], c[i], rng)] + c[i + 1:]
+    if t == 'struct' and isinstance(c, dict) and c:
+        n = rng.choice(sorted(c))
+        if n in di['members']:
+            return dict(c, **{n: _py_hostile_at(di['members'][n], c[n], rng)})
+    return rng.choice(PY_HOSTILE)
+
+
 def mutate_py(di, v, rng):
     """hostile python-side candidates: a mutated wire value converted where natural, else raw"""
+    if rng.random() < 0.06:
+        try:
+            return _to_py_lenient(di, _py_hostile_at(di, json.loads(json.dumps(v)), rng))
+        except Exception:
+            pass
     c = mutate(di, v, rng)
     try:
         if refdt.first_unnatural(di, c) is None or rng.random() < 0.5:
@@ -427,6 +452,12 @@ def widen(di, rng, cross=True):
         m = dict(di['members'])
         if rng.random() < 0.5:
             m['zz_more'] = max(m.values()) + 1
+        q = rng.random()
+        if q < 0.3:
+            # the same codes under other labels (a node spelling its labels differently): the value sets are still nested
+            m = {(k.upper() if k.upper() != k else 'L_' + k): v for k, v in m.items()}
+        elif q < 0.4:
+            m = {f'code{v}'.replace('-', 'm'): v for v in m.values()}
         return {'type': 'enum', 'members': m}
     if t == 'string':
         d = {'type': 'string'}
